@@ -1,8 +1,16 @@
 //! Replay driver: runs a named scenario against the REAL varpro code (a scratch copy of /repo's working tree)
-//! and prints `REPRODUCED: ...` when the property violation is observed, `NOT-REPRODUCED: ...` otherwise.
+//! and prints `REPRODUCED [<property ids>]: ...` for every property violation it observes, `NOT-REPRODUCED: ...` otherwise.
 //! A hang is detected by the caller's watchdog, a panic by the exit status.
+//!
+//! The `*_sweep` scenarios compare the public API against independent oracles (textbook formulas evaluated in this file,
+//! none of the code paths under test) on a fixed, finite set of concrete problems. They are BOUNDED checks: used (a) to
+//! attach a concrete failing input to an obligation the verifier reports as failed, (b) as the bounded stand-in for a
+//! function that could not be brought through the verifier (degraded): a reproduced mismatch refutes, a clean sweep
+//! proves nothing.
 use levenberg_marquardt::LeastSquaresProblem;
 use nalgebra::{DMatrix, DVector};
+use std::collections::BTreeSet;
+use varpro::model::errors::ModelError;
 use varpro::prelude::*;
 use varpro::solvers::levmar::{LevMarProblemBuilder, LevMarSolver};
 
@@ -28,14 +36,28 @@ fn data(n: usize) -> DVector<f64> {
     DVector::from_vec((0..n).map(|i| { let x = i as f64; 2. * (-x / 1.4).exp() + 3. * (-x / 5.).exp() + 0.01 * (x * 1.7).sin() }).collect::<Vec<_>>())
 }
 
+/// findings of a sweep: one line per distinct quantity
+struct Findings { seen: BTreeSet<String>, n: usize }
+impl Findings {
+    fn new() -> Self { Findings { seen: BTreeSet::new(), n: 0 } }
+    fn report(&mut self, tags: &str, what: &str, detail: String) {
+        if self.seen.insert(what.to_string()) {
+            println!("REPRODUCED [{}]: {} {}", tags, what, detail);
+            self.n += 1;
+        }
+    }
+    fn finish(&self, ok: &str) { if self.n == 0 { println!("NOT-REPRODUCED: {}", ok); } }
+}
+
 /// independent oracle for the algebraic contracts (C01-C03, C06, C07, C10): textbook formulas through the normal equations,
-/// evaluated on a second model instance; none of the code paths under test is used
-struct Oracle { coeff: DMatrix<f64>, resid: DVector<f64>, jac: DMatrix<f64>, yw: DMatrix<f64> }
+/// evaluated on a second model instance
+struct Oracle { coeff: DMatrix<f64>, resid: DVector<f64>, jac: DMatrix<f64>, yw: DMatrix<f64>, fit: DMatrix<f64> }
 fn oracle(n: usize, m: usize, p: usize, alpha: &[f64], w: &Option<DVector<f64>>, y: &DMatrix<f64>) -> Oracle {
     let mut mo = model(n, m, p);
     mo.set_params(DVector::from_vec(alpha.to_vec())).unwrap();
     let wm = match w { Some(w) => DMatrix::from_diagonal(w), None => DMatrix::identity(n, n) };
-    let a = &wm * mo.eval().unwrap();
+    let phi = mo.eval().unwrap();
+    let a = &wm * &phi;
     let yw = &wm * y;
     let ata_inv = (a.transpose() * &a).try_inverse().expect("oracle: normal matrix singular");
     let coeff = &ata_inv * a.transpose() * &yw;
@@ -48,16 +70,223 @@ fn oracle(n: usize, m: usize, p: usize, alpha: &[f64], w: &Option<DVector<f64>>,
         let c = &proj * &x - &x;
         jac.set_column(k, &DVector::from_iterator(n * y.ncols(), c.iter().cloned()));
     }
-    Oracle { coeff, resid, jac, yw }
+    let fit = &phi * &coeff;
+    Oracle { coeff, resid, jac, yw, fit }
 }
+/// relative comparison (scale = largest magnitude of the expected matrix)
 fn close(a: &DMatrix<f64>, b: &DMatrix<f64>) -> Option<f64> {
     if a.shape() != b.shape() { return Some(f64::INFINITY); }
-    let scale = 1.0 + b.amax();
+    let scale = b.amax();
     let d = (a - b).amax();
-    if d.is_nan() || d > 1e-7 * scale { Some(d) } else { None }
+    if d.is_nan() || d > 1e-6 * scale + 1e-300 { Some(d) } else { None }
 }
+fn colm(v: &[f64]) -> DMatrix<f64> { DMatrix::from_column_slice(v.len(), 1, v) }
 fn ydata(n: usize, s: usize) -> DMatrix<f64> {
     DMatrix::from_fn(n, s, |i, j| { let x = i as f64; (2. + j as f64) * (-x / 1.4).exp() + (3. - 0.5 * j as f64) * (-x / 5.).exp() + 0.01 * (x * 1.7 + j as f64).sin() })
+}
+
+/// a model whose derivative with respect to parameter `fail_at` reports an error (C09: failures must propagate)
+struct Flaky { inner: varpro::model::SeparableModel<f64>, fail_at: usize }
+impl SeparableNonlinearModel for Flaky {
+    type ScalarType = f64;
+    type Error = ModelError;
+    fn parameter_count(&self) -> usize { self.inner.parameter_count() }
+    fn base_function_count(&self) -> usize { self.inner.base_function_count() }
+    fn output_len(&self) -> usize { self.inner.output_len() }
+    fn set_params(&mut self, parameters: DVector<f64>) -> Result<(), Self::Error> { self.inner.set_params(parameters) }
+    fn params(&self) -> DVector<f64> { self.inner.params() }
+    fn eval(&self) -> Result<DMatrix<f64>, Self::Error> { self.inner.eval() }
+    fn eval_partial_deriv(&self, derivative_index: usize) -> Result<DMatrix<f64>, Self::Error> {
+        if derivative_index == self.fail_at { Err(ModelError::DerivativeIndexOutOfBounds { index: derivative_index }) } else { self.inner.eval_partial_deriv(derivative_index) }
+    }
+}
+
+fn algebra_sweep() {
+    let mut f = Findings::new();
+    for &(n, m, p) in [(8usize, 2usize, 2usize), (9, 3, 2)].iter() {
+        for wk in 0..3 {
+            let w: Option<DVector<f64>> = match wk { 0 => None, 1 => Some(DVector::from_fn(n, |i, _| 1.0 / (1.0 + i as f64))), _ => Some(DVector::from_fn(n, |i, _| if i == 1 || i == 4 { 0.0 } else { 0.5 + 0.25 * i as f64 })) };
+            for s in 1..=3usize {
+                let y = ydata(n, s);
+                let (a1, a2) = (vec![1.3, 4.0], vec![2.1, 6.5]);
+                let cfg = format!("for N={} M={} P={} S={} weights={} alpha={:?}", n, m, p, s, ["none", "1/(1+i)", "zeros at rows 1,4"][wk], a2);
+                let wt = if wk == 0 { "" } else { " C06" };
+                let mr = if s > 1 { " C07" } else { "" };
+                // multiple right-hand-side flavour
+                let mut b = LevMarProblemBuilder::mrhs(model(n, m, p)).observations(y.clone());
+                if let Some(w) = &w { b = b.weights(w.clone()); }
+                let mut pr = b.build().unwrap();
+                pr.set_params(&DVector::from_vec(a1.clone()));
+                pr.set_params(&DVector::from_vec(a2.clone()));
+                let o = oracle(n, m, p, &a2, &w, &y);
+                if let Some(d) = close(&pr.weighted_data().into_owned(), &o.yw) { f.report(&format!("C02 C18{}{}", wt, mr), "weighted_data() differs from W*Y", format!("(max abs diff {:e}) {}", d, cfg)); }
+                match pr.linear_coefficients() { Some(c) => if let Some(d) = close(&c.into_owned(), &o.coeff) { f.report(&format!("C01 C02{}{}", wt, mr), "linear_coefficients() differ from the least-squares optimum", format!("(max abs diff {:e}) {}", d, cfg)); }, None => f.report("C01 C02 C09", "linear_coefficients() == None although the model evaluates", cfg.clone()) }
+                match pr.residuals() { Some(r) => if let Some(d) = close(&colm(r.as_slice()), &colm(o.resid.as_slice())) { f.report(&format!("C02 C01{}{}", wt, mr), "residuals() differ from vec(W(Y - Phi C))", format!("(max abs diff {:e}) {}", d, cfg)); }, None => f.report("C02 C09", "residuals() == None although the model evaluates", cfg.clone()) }
+                match pr.jacobian() { Some(j) => if let Some(d) = close(&j, &o.jac) { f.report(&format!("C03{}{}", wt, mr), "jacobian() differs from the Kaufman columns -(I - P) W D_k C", format!("(max abs diff {:e}) {}", d, cfg)); }, None => f.report("C03 C09", "jacobian() == None although every derivative evaluates", cfg.clone()) }
+                // a fresh problem at the same parameters must agree exactly (no history)
+                let mut b2 = LevMarProblemBuilder::mrhs(model(n, m, p)).observations(y.clone());
+                if let Some(w) = &w { b2 = b2.weights(w.clone()); }
+                let mut fresh = b2.build().unwrap();
+                fresh.set_params(&DVector::from_vec(a2.clone()));
+                if fresh.residuals() != pr.residuals() || fresh.jacobian() != pr.jacobian() || pr.jacobian() != pr.jacobian() { f.report("C10", "state after two updates differs from a fresh problem at the same parameters", cfg.clone()); }
+                // single right-hand-side flavour
+                if s == 1 {
+                    let mut b = LevMarProblemBuilder::new(model(n, m, p)).observations(y.column(0).into_owned());
+                    if let Some(w) = &w { b = b.weights(w.clone()); }
+                    let mut pr = b.build().unwrap();
+                    pr.set_params(&DVector::from_vec(a2.clone()));
+                    match pr.linear_coefficients() { Some(c) => if let Some(d) = close(&colm(c.into_owned().as_slice()), &o.coeff) { f.report(&format!("C01 C07{}", wt), "linear_coefficients() [single rhs] differ from the least-squares optimum", format!("(max abs diff {:e}) {}", d, cfg)); }, None => f.report("C01 C09", "linear_coefficients() == None [single rhs]", cfg.clone()) }
+                    match pr.residuals() { Some(r) => if let Some(d) = close(&colm(r.as_slice()), &colm(o.resid.as_slice())) { f.report(&format!("C02 C07{}", wt), "residuals() [single rhs] differ from vec(W(y - Phi c))", format!("(max abs diff {:e}) {}", d, cfg)); }, None => f.report("C02 C09", "residuals() == None [single rhs]", cfg.clone()) }
+                    match pr.jacobian() { Some(j) => if let Some(d) = close(&j, &o.jac) { f.report(&format!("C03 C07{}", wt), "jacobian() [single rhs] differs from the Kaufman columns", format!("(max abs diff {:e}) {}", d, cfg)); }, None => f.report("C03 C09", "jacobian() == None [single rhs]", cfg.clone()) }
+                }
+            }
+        }
+    }
+    // best_fit() of a converged weighted fit (a zero weight included) is Phi(alpha) * C
+    for s in 1..=2usize {
+        let (n, m, p) = (24usize, 2usize, 2usize);
+        let y = ydata(n, s);
+        let w = DVector::from_fn(n, |i, _| if i == 3 || i == 7 { 0.0 } else { 0.5 + 0.1 * (i % 5) as f64 });
+        let res = LevMarSolver::default().fit(LevMarProblemBuilder::mrhs(model(n, m, p)).observations(y.clone()).weights(w.clone()).build().unwrap());
+        if let Ok(fr) = res {
+            let alpha = fr.nonlinear_parameters();
+            let o = oracle(n, m, p, alpha.as_slice(), &Some(w.clone()), &y);
+            match fr.best_fit() { Some(bf) => if let Some(d) = close(&bf, &o.fit) { f.report("C02 C06", "best_fit() differs from Phi(alpha) * C", format!("(max abs diff {:e}) for a converged fit with N={} S={} and zero weights at rows 3,7", d, n, s)); }, None => f.report("C02 C04", "best_fit() == None after a successful fit", String::new()) }
+        }
+    }
+    // C09: a derivative that fails at an index other than the last must make jacobian() None
+    for fail_at in 0..2usize {
+        let (n, m, p) = (8usize, 2usize, 2usize);
+        let pr = LevMarProblemBuilder::new(Flaky { inner: model(n, m, p), fail_at }).observations(data(n)).build().unwrap();
+        if pr.jacobian().is_some() { f.report("C09 C03", "jacobian() is Some although eval_partial_deriv reported an error", format!("for the derivative with index {} of 2", fail_at)); }
+    }
+    f.finish("the algebra sweep (18 configurations, best_fit, failing derivatives) agrees with the independent oracle");
+}
+
+fn stats_sweep() {
+    let mut f = Findings::new();
+    let (n, m, p) = (30usize, 2usize, 2usize);
+    for wk in 0..4 {
+        // 0: no weights, 1: varied, 2: two exact zeros, 3: data and weights at a tiny scale
+        let scale = if wk == 3 { 1e-18 } else { 1.0 };
+        let y = ydata(n, 1).column(0).into_owned() * scale;
+        let w: Option<DVector<f64>> = match wk { 0 => None, 1 | 3 => Some(DVector::from_fn(n, |i, _| 0.5 + 0.1 * (i % 5) as f64)), _ => Some(DVector::from_fn(n, |i, _| if i == 4 || i == 11 { 0.0 } else { 0.5 + 0.1 * (i % 5) as f64 })) };
+        let mut b = LevMarProblemBuilder::new(model(n, m, p)).observations(y.clone());
+        if let Some(w) = &w { b = b.weights(w.clone()); }
+        let (fit, st) = match LevMarSolver::default().fit_with_statistics(b.build().unwrap()) { Ok(x) => x, Err(e) => { if e.was_successful() { f.report("C12 C06", "fit_with_statistics returned Err although the fit succeeded and N > M + P", format!("(weights case {})", wk)); } continue; } };
+        let alpha = fit.nonlinear_parameters();
+        let c = fit.linear_coefficients().unwrap().into_owned();
+        let mut mo = model(n, m, p);
+        mo.set_params(alpha.clone()).unwrap();
+        let phi = mo.eval().unwrap();
+        let wm = match &w { Some(w) => DMatrix::from_diagonal(w), None => DMatrix::identity(n, n) };
+        let mut j = DMatrix::zeros(n, m + p);
+        j.view_mut((0, 0), (n, m)).copy_from(&phi);
+        for k in 0..p { j.set_column(m + k, &(mo.eval_partial_deriv(k).unwrap() * &c)); }
+        let h = &wm * &j;
+        let r = &wm * (&y - &phi * &c);
+        let dof = (n - m - p) as f64;
+        let chi2 = r.norm_squared() / dof;
+        // scale the columns for the oracle's own inversion only (exact rescaling afterwards): keeps the oracle well conditioned
+        let cn: Vec<f64> = (0..m + p).map(|k| h.column(k).norm()).collect();
+        let hs = DMatrix::from_fn(n, m + p, |i, k| h[(i, k)] / cn[k]);
+        let inv_s = (hs.transpose() * &hs).try_inverse().unwrap();
+        let cov = DMatrix::from_fn(m + p, m + p, |a, b| inv_s[(a, b)] / (cn[a] * cn[b]) * chi2);
+        let cfg = format!("for N={} M={} P={} weights={}", n, m, p, ["none", "0.5+0.1*(i%5)", "0.5+0.1*(i%5) with exact zeros at rows 4,11", "0.5+0.1*(i%5), data scaled by 1e-18"][wk]);
+        let wt = if wk == 0 { "" } else { " C06" };
+        if (st.reduced_chi2() - chi2).abs() > 1e-6 * chi2 { f.report(&format!("C12{}", wt), "reduced_chi2() differs from |W(y - Phi c)|^2 / (N - M - P)", format!("({:e} vs {:e}) {}", st.reduced_chi2(), chi2, cfg)); }
+        if let Some(d) = close(&st.covariance_matrix().clone(), &cov) { f.report(&format!("C13{}", wt), "covariance_matrix() differs from chi2 (H^T H)^-1", format!("(max abs diff {:e}) {}", d, cfg)); }
+        if close(&colm(st.weighted_residuals().as_slice()), &colm(r.as_slice())).is_some() { f.report(&format!("C12{}", wt), "weighted_residuals() differ from W(y - Phi c)", cfg.clone()); }
+        let d = cov.diagonal();
+        if close(&colm(st.linear_coefficients_variance().as_slice()), &colm(&d.as_slice()[0..m])).is_some() { f.report("C13", "linear_coefficients_variance() is not the leading diagonal segment", cfg.clone()); }
+        if close(&colm(st.nonlinear_parameters_variance().as_slice()), &colm(&d.as_slice()[m..m + p])).is_some() { f.report("C13", "nonlinear_parameters_variance() is not the trailing diagonal segment", cfg.clone()); }
+        let corr = DMatrix::from_fn(m + p, m + p, |a, b| cov[(a, b)] / (cov[(a, a)] * cov[(b, b)]).sqrt());
+        if close(&st.calculate_correlation_matrix(), &corr).is_some() { f.report("C13", "calculate_correlation_matrix() differs from c_ij / sqrt(c_ii c_jj)", cfg.clone()); }
+        // the band radius is t * sqrt(j_i^T Cov j_i) with rows of the UNWEIGHTED J: the ratio must be the same for every sample
+        let band = st.confidence_band_radius(0.9);
+        let sig: Vec<f64> = (0..n).map(|i| (j.row(i) * &cov * j.row(i).transpose())[(0, 0)].sqrt()).collect();
+        let t0 = band[0] / sig[0];
+        if band.len() != n || (0..n).any(|i| !band[i].is_finite() || (band[i] / sig[i] - t0).abs() > 1e-5 * t0.abs()) || !(t0 > 1.6 && t0 < 1.8) {
+            f.report(&format!("C14{}", wt), "confidence_band_radius(0.9) is not t(0.95; 26) * sqrt(j_i^T Cov j_i) for every sample (t = 1.7056)", cfg.clone());
+        }
+    }
+    f.finish("statistics agree with their defining formulas (4 weight / scale cases)");
+}
+
+fn xs(n: usize) -> DVector<f64> { DVector::from_vec((1..=n).map(|i| i as f64).collect::<Vec<_>>()) }
+
+fn model_sweep() {
+    let mut f = Findings::new();
+    // ---- C16: routing by name and derivative placement. g(x, p, q, r, s) = 1000 p + 100 q + 10 r + s (times x)
+    let g = |x: &DVector<f64>, p: f64, q: f64, r: f64, s: f64| x.map(|x| x * (1000. * p + 100. * q + 10. * r + s));
+    let vals = [1.0, 2.0, 3.0, 4.0, 5.0];
+    let names = ["a", "b", "c", "d", "e"];
+    for order in [["a", "c", "b", "d"], ["d", "b", "c", "a"], ["b", "c", "d", "e"], ["e", "a", "d", "b"]].iter() {
+        let idx: Vec<usize> = order.iter().map(|s| names.iter().position(|n| n == s).unwrap()).collect();
+        let mut b = SeparableModelBuilder::<f64>::new(names).invariant_function(|x: &DVector<f64>| x.map(|_| 1.0)).function(*order, g);
+        for (pos, nm) in order.iter().enumerate() {
+            let wgt = [1000., 100., 10., 1.][pos];
+            b = b.partial_deriv(*nm, move |x: &DVector<f64>, _p: f64, _q: f64, _r: f64, _s: f64| x.map(|x| x * wgt));
+        }
+        // every parameter must be used: a second function over all five
+        b = b.function(names, |x: &DVector<f64>, a: f64, b: f64, c: f64, d: f64, e: f64| x.map(|x| x + a + b + c + d + e));
+        for nm in names.iter() { b = b.partial_deriv(*nm, |x: &DVector<f64>, _a: f64, _b: f64, _c: f64, _d: f64, _e: f64| x.map(|_| 1.0)); }
+        let mo = match b.independent_variable(xs(3)).initial_parameters(vals.to_vec()).build() { Ok(m) => m, Err(e) => { f.report("C15", "a valid specification is rejected", format!("({:?}) for a function over {:?}", e, order)); continue; } };
+        let want = 1000. * vals[idx[0]] + 100. * vals[idx[1]] + 10. * vals[idx[2]] + vals[idx[3]];
+        match mo.eval() {
+            Ok(phi) => {
+                if phi.ncols() != 3 || (0..3).any(|i| phi[(i, 0)] != 1.0 || phi[(i, 1)] != (i as f64 + 1.) * want) { f.report("C16", "eval(): a function does not receive exactly its named parameters in its own order", format!("for a function over {:?} in a model over {:?}: column {:?}, expected x * {}", order, names, phi.column(1).as_slice(), want)); }
+            }
+            Err(e) => f.report("C16 C17", "eval() of a valid model fails", format!("{:?}", e)),
+        }
+        for k in 0..5 {
+            match mo.eval_partial_deriv(k) {
+                Ok(d) => {
+                    let wgt = match idx.iter().position(|&i| i == k) { Some(pos) => [1000., 100., 10., 1.][pos], None => 0.0 };
+                    if (0..3).any(|i| d[(i, 0)] != 0.0 || d[(i, 1)] != (i as f64 + 1.) * wgt || d[(i, 2)] != 1.0) { f.report("C16", "eval_partial_deriv(k): a derivative is not placed under the model index of its parameter name (or a zero column is not zero)", format!("for k={} and a function over {:?}", k, order)); }
+                }
+                Err(e) => f.report("C16 C17", "eval_partial_deriv of a valid model fails", format!("{:?}", e)),
+            }
+        }
+        if mo.params().as_slice() != vals { f.report("C16", "params() does not return the parameters in model order", String::new()); }
+    }
+    // ---- C15: acceptance matrix of the model builder (one defect per sequence)
+    let f1 = |x: &DVector<f64>, a: f64| x.map(|x| x * a);
+    let f2 = |x: &DVector<f64>, a: f64, b: f64| x.map(|x| x * a + b);
+    let ok = |b: SeparableModelBuilder<f64>| b.independent_variable(xs(3)).initial_parameters(vec![1., 2.]).build().is_ok();
+    let base = || SeparableModelBuilder::<f64>::new(["a", "b"]);
+    let valid = || base().function(["a", "b"], f2).partial_deriv("a", f2).partial_deriv("b", f2);
+    let mut expect = |name: &str, accepted: bool, should: bool| { if accepted != should { f.report("C15", if should { "a valid call sequence is rejected:" } else { "an invalid call sequence is accepted:" }, name.to_string()); } };
+    expect("function(a,b) + both derivatives + x + initial guess", ok(valid()), true);
+    expect("derivatives supplied in the other order", ok(base().function(["a", "b"], f2).partial_deriv("b", f2).partial_deriv("a", f2)), true);
+    expect("duplicate model parameter names", ok(SeparableModelBuilder::<f64>::new(["a", "a"]).function(["a"], f1).partial_deriv("a", f1)), false);
+    expect("comma in a model parameter name", ok(SeparableModelBuilder::<f64>::new(["a,b", "b"]).function(["b"], f1).partial_deriv("b", f1)), false);
+    expect("missing derivative for b", ok(base().function(["a", "b"], f2).partial_deriv("a", f2)), false);
+    expect("derivative for a given twice", ok(base().function(["a", "b"], f2).partial_deriv("a", f2).partial_deriv("a", f2).partial_deriv("b", f2)), false);
+    expect("derivative for a name the function does not take", ok(base().function(["a"], f1).partial_deriv("a", f1).partial_deriv("b", f1).function(["b"], f1).partial_deriv("b", f1)), false);
+    expect("derivative with fewer arguments than its function", ok(base().function(["a", "b"], f2).partial_deriv("a", f2).partial_deriv("b", f1)), false);
+    expect("function whose argument count differs from its parameter list", ok(base().function(["a", "b"], f1).partial_deriv("a", f1).partial_deriv("b", f1)), false);
+    expect("function parameter that is not a model parameter", ok(base().function(["a", "z"], f2).partial_deriv("a", f2).partial_deriv("z", f2)), false);
+    expect("duplicate function parameters", ok(base().function(["a", "a"], f2).partial_deriv("a", f2)), false);
+    expect("model parameter b used by no function", ok(base().function(["a"], f1).partial_deriv("a", f1)), false);
+    expect("partial_deriv directly after invariant_function", ok(valid().invariant_function(|x: &DVector<f64>| x.clone()).partial_deriv("a", f2)), false);
+    expect("no basis function at all", ok(base()), false);
+    expect("missing independent variable", valid().initial_parameters(vec![1., 2.]).build().is_ok(), false);
+    expect("missing initial guess", valid().independent_variable(xs(3)).build().is_ok(), false);
+    expect("initial guess of the wrong length", valid().independent_variable(xs(3)).initial_parameters(vec![1.]).build().is_ok(), false);
+    expect("wrong-length initial guess followed by a correct one (errors are sticky)", valid().independent_variable(xs(3)).initial_parameters(vec![1.]).initial_parameters(vec![1., 2.]).build().is_ok(), false);
+    expect("missing derivative, then a second complete function (errors are sticky)", ok(base().function(["a"], f1).function(["a", "b"], f2).partial_deriv("a", f2).partial_deriv("b", f2)), false);
+    // ---- C17: misuse of a built model is an error value and leaves the state intact
+    let mut mo = valid().independent_variable(xs(3)).initial_parameters(vec![1., 2.]).build().unwrap();
+    let before = mo.eval().unwrap();
+    if mo.set_params(DVector::from_vec(vec![9.0])).is_ok() { f.report("C17", "set_params with a wrong-length vector is accepted", String::new()); }
+    if mo.params().as_slice() != [1., 2.] || mo.eval().ok() != Some(before) { f.report("C17", "a rejected parameter vector changed the parameters or later evaluations", String::new()); }
+    if mo.eval_partial_deriv(2).is_ok() { f.report("C17", "eval_partial_deriv with an out-of-range index is accepted", String::new()); }
+    let bad = SeparableModelBuilder::<f64>::new(["a"]).invariant_function(|_x: &DVector<f64>| DVector::from_vec(vec![1., 2.])).function(["a"], f1).partial_deriv("a", f1).independent_variable(xs(3)).initial_parameters(vec![1.]).build().unwrap();
+    for round in 0..2 { if bad.eval().is_ok() { f.report("C17", "eval() accepts a basis function whose output has the wrong length", format!("(call #{})", round + 1)); } }
+    let badd = SeparableModelBuilder::<f64>::new(["a"]).function(["a"], f1).partial_deriv("a", |_x: &DVector<f64>, _a: f64| DVector::from_vec(vec![1.])).independent_variable(xs(3)).initial_parameters(vec![1.]).build().unwrap();
+    for round in 0..2 { if badd.eval_partial_deriv(0).is_ok() { f.report("C17", "eval_partial_deriv() accepts a derivative whose output has the wrong length", format!("(call #{})", round + 1)); } }
+    f.finish("routing (4 parameter orders), the builder acceptance matrix (19 sequences) and the misuse cases behave as specified");
 }
 
 fn main() {
@@ -71,7 +300,7 @@ fn main() {
             problem.set_params(&DVector::from_vec(vec![3.0])); // wrong length: the model rejects it
             let after = problem.params();
             match problem.residuals() {
-                Some(r) if after == before => println!("REPRODUCED: set_params(&[3.0]) was rejected by the 2-parameter model (params still {:?}) but residuals() == Some(len {}) computed for the earlier parameters", after.as_slice(), r.len()),
+                Some(r) if after == before => println!("REPRODUCED [C09 C10 C02]: set_params(&[3.0]) was rejected by the 2-parameter model (params still {:?}) but residuals() == Some(len {}) computed for the earlier parameters", after.as_slice(), r.len()),
                 Some(_) => println!("NOT-REPRODUCED: residuals present and parameters changed"),
                 None => println!("NOT-REPRODUCED: residuals() == None after the rejected update"),
             }
@@ -83,6 +312,22 @@ fn main() {
             problem.set_params(&DVector::from_vec(vec![v, 2.0])); // exp(x/0.001) overflows to +inf ; or NaN
             println!("NOT-REPRODUCED: set_params returned; residuals = {:?}", problem.residuals().map(|r| r.len()));
         }
+        // C08: a non-finite DERIVATIVE at a point where the fit ends successfully must not hang or panic in the statistics
+        "nonfinite_derivative_stats" => {
+            let n = 10;
+            let mut mo = model(n, 2, 2);
+            mo.set_params(DVector::from_vec(vec![1e-200, 3.0])).unwrap(); // exp(-x/tau) finite, x/(tau*tau) overflows: the derivative is NaN / inf
+            let x0 = DVector::from_vec((0..n).map(|i| 1.0 + i as f64).collect::<Vec<_>>());
+            let names = ["tau0", "tau1"];
+            let mo2 = SeparableModelBuilder::<f64>::new(names)
+                .function(["tau0"], |x: &DVector<f64>, tau: f64| x.map(|x| (-x / tau).exp())).partial_deriv("tau0", |x: &DVector<f64>, tau: f64| x.map(|x| (-x / tau).exp() * x / (tau * tau)))
+                .function(["tau1"], |x: &DVector<f64>, tau: f64| x.map(|x| (-x / tau).exp())).partial_deriv("tau1", |x: &DVector<f64>, tau: f64| x.map(|x| (-x / tau).exp() * x / (tau * tau)))
+                .independent_variable(x0).initial_parameters(vec![1e-200, 3.0]).build().unwrap();
+            let _ = mo;
+            let problem = LevMarProblemBuilder::new(mo2).observations(DVector::zeros(n)).build().unwrap();
+            let r = LevMarSolver::default().fit_with_statistics(problem);
+            println!("NOT-REPRODUCED: fit_with_statistics returned ({})", if r.is_ok() { "Ok" } else { "Err" });
+        }
         // C12: N <= M + P must give Err in every build profile
         "underdetermined" => {
             let n: usize = a[2].parse().unwrap();
@@ -90,96 +335,13 @@ fn main() {
             let p: usize = a[4].parse().unwrap();
             let problem = LevMarProblemBuilder::new(model(n, m, p)).observations(data(n)).build().unwrap();
             match LevMarSolver::default().fit_with_statistics(problem) {
-                Ok(_) => println!("REPRODUCED: fit_with_statistics returned Ok although N={} <= M+P={}", n, m + p),
+                Ok(_) => println!("REPRODUCED [C12]: fit_with_statistics returned Ok although N={} <= M+P={}", n, m + p),
                 Err(f) => println!("NOT-REPRODUCED: Err({:?})", f.minimization_report.termination),
             }
         }
-        // C01-C03, C06, C07, C10: coefficients, residuals, Jacobian and weighted data against the independent oracle, for
-        // single and multiple right-hand sides, with and without (partly zero) weights, after one and after two updates
-        "algebra_sweep" => {
-            let mut found = false;
-            for &(n, m, p) in [(8usize, 2usize, 2usize), (9, 3, 2)].iter() {
-                for wk in 0..3 {
-                    let w: Option<DVector<f64>> = match wk { 0 => None, 1 => Some(DVector::from_fn(n, |i, _| 1.0 / (1.0 + i as f64))), _ => Some(DVector::from_fn(n, |i, _| if i == 1 || i == 4 { 0.0 } else { 0.5 + 0.25 * i as f64 })) };
-                    for s in 1..=3usize {
-                        let y = ydata(n, s);
-                        let (a1, a2) = (vec![1.3, 4.0], vec![2.1, 6.5]);
-                        let cfg = format!("N={} M={} P={} S={} weights={} alpha={:?}", n, m, p, s, ["none", "1/(1+i)", "zeros at rows 1,4"][wk], a2);
-                        let mut report = |what: &str, d: f64| { if !found { println!("REPRODUCED: {} differs from the independent oracle (max abs diff {:e}) for {}", what, d, cfg); } found = true; };
-                        // multiple right-hand-side flavour
-                        let mut b = LevMarProblemBuilder::mrhs(model(n, m, p)).observations(y.clone());
-                        if let Some(w) = &w { b = b.weights(w.clone()); }
-                        let mut pr = b.build().unwrap();
-                        pr.set_params(&DVector::from_vec(a1.clone()));
-                        pr.set_params(&DVector::from_vec(a2.clone()));
-                        let o = oracle(n, m, p, &a2, &w, &y);
-                        if let Some(d) = close(&pr.weighted_data().into_owned(), &o.yw) { report("weighted_data()", d); }
-                        match pr.linear_coefficients() { Some(c) => if let Some(d) = close(&c.into_owned(), &o.coeff) { report("linear_coefficients()", d); }, None => report("linear_coefficients() == None", f64::NAN) }
-                        match pr.residuals() { Some(r) => if let Some(d) = close(&DMatrix::from_column_slice(r.len(), 1, r.as_slice()), &DMatrix::from_column_slice(o.resid.len(), 1, o.resid.as_slice())) { report("residuals()", d); }, None => report("residuals() == None", f64::NAN) }
-                        match pr.jacobian() { Some(j) => if let Some(d) = close(&j, &o.jac) { report("jacobian()", d); }, None => report("jacobian() == None", f64::NAN) }
-                        // a fresh problem at the same parameters must agree exactly (no history)
-                        let mut b2 = LevMarProblemBuilder::mrhs(model(n, m, p)).observations(y.clone());
-                        if let Some(w) = &w { b2 = b2.weights(w.clone()); }
-                        let mut fresh = b2.build().unwrap();
-                        fresh.set_params(&DVector::from_vec(a2.clone()));
-                        if fresh.residuals() != pr.residuals() || fresh.jacobian() != pr.jacobian() { report("state after two updates vs a fresh problem at the same parameters", f64::NAN); }
-                        // single right-hand-side flavour
-                        if s == 1 {
-                            let mut b = LevMarProblemBuilder::new(model(n, m, p)).observations(y.column(0).into_owned());
-                            if let Some(w) = &w { b = b.weights(w.clone()); }
-                            let mut pr = b.build().unwrap();
-                            pr.set_params(&DVector::from_vec(a2.clone()));
-                            match pr.linear_coefficients() { Some(c) => if let Some(d) = close(&DMatrix::from_column_slice(c.len(), 1, c.into_owned().as_slice()), &o.coeff) { report("linear_coefficients() [single rhs]", d); }, None => report("linear_coefficients() == None [single rhs]", f64::NAN) }
-                            match pr.residuals() { Some(r) => if let Some(d) = close(&DMatrix::from_column_slice(r.len(), 1, r.as_slice()), &DMatrix::from_column_slice(o.resid.len(), 1, o.resid.as_slice())) { report("residuals() [single rhs]", d); }, None => report("residuals() == None [single rhs]", f64::NAN) }
-                            match pr.jacobian() { Some(j) => if let Some(d) = close(&j, &o.jac) { report("jacobian() [single rhs]", d); }, None => report("jacobian() == None [single rhs]", f64::NAN) }
-                        }
-                    }
-                }
-            }
-            if !found { println!("NOT-REPRODUCED: 18 configurations agree with the independent oracle"); }
-        }
-        // C12-C14: statistics of a converged weighted fit against their defining formulas (recomputed from the public model API)
-        "stats_sweep" => {
-            let (n, m, p) = (30usize, 2usize, 2usize);
-            let y = ydata(n, 1).column(0).into_owned();
-            let mut found = false;
-            for wk in 0..2 {
-                let w: Option<DVector<f64>> = if wk == 0 { None } else { Some(DVector::from_fn(n, |i, _| 0.5 + 0.1 * (i % 5) as f64)) };
-                let mut b = LevMarProblemBuilder::new(model(n, m, p)).observations(y.clone());
-                if let Some(w) = &w { b = b.weights(w.clone()); }
-                let (fit, st) = match LevMarSolver::default().fit_with_statistics(b.build().unwrap()) { Ok(x) => x, Err(_) => { println!("NOT-REPRODUCED: fit did not converge"); return; } };
-                let alpha = fit.nonlinear_parameters();
-                let c = fit.linear_coefficients().unwrap().into_owned();
-                let mut mo = model(n, m, p);
-                mo.set_params(alpha.clone()).unwrap();
-                let phi = mo.eval().unwrap();
-                let wm = match &w { Some(w) => DMatrix::from_diagonal(w), None => DMatrix::identity(n, n) };
-                let mut j = DMatrix::zeros(n, m + p);
-                j.view_mut((0, 0), (n, m)).copy_from(&phi);
-                for k in 0..p { j.set_column(m + k, &(mo.eval_partial_deriv(k).unwrap() * &c)); }
-                let h = &wm * &j;
-                let r = &wm * (&y - &phi * &c);
-                let dof = (n - m - p) as f64;
-                let chi2 = r.norm_squared() / dof;
-                let cov = (h.transpose() * &h).try_inverse().unwrap() * chi2;
-                let cfg = format!("N={} M={} P={} weights={}", n, m, p, if wk == 0 { "none" } else { "0.5+0.1*(i%5)" });
-                let mut report = |what: &str| { if !found { println!("REPRODUCED: {} differs from its defining formula for {}", what, cfg); } found = true; };
-                if (st.reduced_chi2() - chi2).abs() > 1e-6 * (1.0 + chi2) { report("reduced_chi2()"); }
-                if close(&st.covariance_matrix().clone(), &cov).is_some() { report("covariance_matrix()"); }
-                if close(&DMatrix::from_column_slice(n, 1, st.weighted_residuals().as_slice()), &DMatrix::from_column_slice(n, 1, r.as_slice())).is_some() { report("weighted_residuals()"); }
-                let d = cov.diagonal();
-                if close(&DMatrix::from_column_slice(m, 1, st.linear_coefficients_variance().as_slice()), &DMatrix::from_column_slice(m, 1, &d.as_slice()[0..m])).is_some() { report("linear_coefficients_variance()"); }
-                if close(&DMatrix::from_column_slice(p, 1, st.nonlinear_parameters_variance().as_slice()), &DMatrix::from_column_slice(p, 1, &d.as_slice()[m..m + p])).is_some() { report("nonlinear_parameters_variance()"); }
-                let corr = DMatrix::from_fn(m + p, m + p, |a, b| cov[(a, b)] / (cov[(a, a)] * cov[(b, b)]).sqrt());
-                if close(&st.calculate_correlation_matrix(), &corr).is_some() { report("calculate_correlation_matrix()"); }
-                // the band radius is t * sqrt(j_i^T Cov j_i) with rows of the UNWEIGHTED J: the ratio must be the same for every sample
-                let band = st.confidence_band_radius(0.9);
-                let sig: Vec<f64> = (0..n).map(|i| (j.row(i) * &cov * j.row(i).transpose())[(0, 0)].sqrt()).collect();
-                let t0 = band[0] / sig[0];
-                if band.len() != n || (0..n).any(|i| (band[i] / sig[i] - t0).abs() > 1e-6 * t0.abs()) || !(t0 > 1.6 && t0 < 1.8) { report("confidence_band_radius(0.9) / sqrt(j_i^T Cov j_i) (expected the constant t(0.95; 26) = 1.7056)"); }
-            }
-            if !found { println!("NOT-REPRODUCED: statistics agree with their defining formulas"); }
-        }
+        "algebra_sweep" => algebra_sweep(),
+        "stats_sweep" => stats_sweep(),
+        "model_sweep" => model_sweep(),
         _ => println!("NOT-REPRODUCED: unknown scenario"),
     }
 }
